@@ -109,9 +109,15 @@ class Reader:
             if x[0] != 'q': raise Bad("expected a rational at item %d, got %r" % (self.k, x))
             self.k += 1; return Fraction(x[1], x[2])
         if self.elt == 'f64':
-            if x[0] != 'f': raise Bad("expected a float at item %d, got %r" % (self.k, x))
+            if x[0] != 'f' or not (0 <= x[1] < 2 ** 64): raise Bad("expected a float at item %d, got %r" % (self.k, x))
             self.k += 1; return bits_f64(x[1])
-        a = self.it[self.k]; b = self.it[self.k + 1]; self.k += 2
+        # Complex<f64>: two consecutive float items (re, im); a shifted stream must become "malformed answer", not a crash
+        if self.k + 1 >= len(self.it): raise Bad("stream ended early (inside a complex value at item %d)" % self.k)
+        a = self.it[self.k]; b = self.it[self.k + 1]
+        for off, t in ((0, a), (1, b)):
+            if t[0] != 'f' or not isinstance(t[1], int) or not (0 <= t[1] < 2 ** 64):
+                raise Bad("expected a complex value (two floats) at item %d, got %r" % (self.k + off, t))
+        self.k += 2
         return complex(bits_f64(a[1]), bits_f64(b[1]))
     def nats(self): return [self.nat() for _ in range(self.nat())]
     def scalars(self): return [self.scalar() for _ in range(self.nat())]
